@@ -519,7 +519,7 @@ LIST_ADAPTORS2 = [
     (rx(r" as (?:std::iter::|core::iter::)?Iterator>::map::<"), _it_map),
     (rx(r" as (?:std::iter::|core::iter::)?Iterator>::collect::<"), _it_collect),
     (rx(r"^core::slice::<impl \[.*\]>::iter$"), _slice_iter),
-    (rx(r"^<(?:std::vec::|alloc::vec::)?Vec<.*> as (?:std::iter::|core::iter::)?IntoIterator>::into_iter$|^<&(?:'\w+ )?(?:mut )?\[.*\] as (?:std::iter::|core::iter::)?IntoIterator>::into_iter$"), _vec_into_iter),
+    (rx(r"^<(?:std::collections::)?VecDeque<.*> as (?:std::iter::|core::iter::)?IntoIterator>::into_iter$|^<(?:std::vec::|alloc::vec::)?Vec<.*> as (?:std::iter::|core::iter::)?IntoIterator>::into_iter$|^<&(?:'\w+ )?(?:mut )?\[.*\] as (?:std::iter::|core::iter::)?IntoIterator>::into_iter$"), _vec_into_iter),
 ]
 
 LIST_ADAPTORS = [
